@@ -22,7 +22,13 @@ def main():
         job = json.loads(line)
         if job.get("quit"):
             break
-        r = hermetic.local(c13.observe, job, timeout=60)
+        fn = c13.observe
+        if job.get("call"):
+            # "package.module:function" -- the function receives the job
+            import importlib
+            mod, name = job["call"].split(":")
+            fn = getattr(importlib.import_module(mod), name)
+        r = hermetic.local(fn, job, timeout=job.get("timeout", 60))
         res = {"kind": r.kind, "value": r.value if r.kind == "ok" else str(r.info)[:300]}
         out.write(json.dumps(res, sort_keys=True, default=str) + "\n")
         out.flush()
